@@ -188,6 +188,33 @@ def gen_near_tie_ruleset(rng, name="T"):
     return rs
 
 
+def gen_close_lines_ruleset(rng, name="T"):
+    """An ordinary random ruleset in which one to three lists carry ADJACENT lines whose probabilities differ in the 10th-16th
+    significant digit (0.5 / 0.4999999999, p / nextafter(p)): distinct probabilities, hence distinct groups and distinct
+    positions in the probability order - a loader that groups "close" values merges them."""
+    import math
+    rs = gen_ruleset(rng, with_markov=False, name=name)
+    names = [k for k, v in rs["files"].items() if len(v) >= 2]
+    rng.shuffle(names)
+    for k in names[:rng.randint(1, 3)]:
+        lines = list(rs["files"][k])
+        order = list(range(len(lines) - 1))
+        rng.shuffle(order)
+        for i in order:
+            p0 = float(lines[i][1])
+            if p0 <= 0.0:
+                continue
+            p1 = rng.choice([p0 * (1 - 1e-10), p0 * (1 - 3e-13), math.nextafter(p0, 0.0), p0 * (1 - 2.0 ** -40)])
+            nxt = float(lines[i + 2][1]) if i + 2 < len(lines) else 0.0
+            if not (nxt < p1 < p0):
+                continue
+            lines[i + 1] = (lines[i + 1][0], p1)
+            rs["files"][k] = lines
+            rs["close_lines"] = rs.get("close_lines", 0) + 1
+            break
+    return rs
+
+
 SECTION = {"A": ("BASE_A", "Alpha"), "C": ("CAPITALIZATION", "Capitalization"), "D": ("BASE_D", "Digits"),
            "O": ("BASE_O", "Other"), "K": ("BASE_K", "Keyboard"), "Y": ("BASE_Y", "Years"),
            "X": ("BASE_X", "Context")}
